@@ -124,7 +124,8 @@ def table() -> dict[str, Prop]:
              "number of lines and is only shrunk within the region or restored: state.line <= state.lineMax at every return of "
              "every block rule and of the dispatcher, as a co-inductive contract validated at every dispatch (LINECAP); the line scans "
              "behind paragraphs, setext headings and reference definitions step over a line only after isEmpty of that line failed, "
-             "so those blocks contain and end on non-blank lines (NONBLANK)",
+             "so those blocks contain and end on non-blank lines, and a scan that steps over blank lines on purpose (indented code) "
+             "returns with a cursor that lies right after a non-blank line (NONBLANK)",
              [MP.rule_map, LC.rule_linecap],
              not_decided="b < e, non-blank first line and non-blank last line of the other block kinds, nesting inside the parent's map, ordering of siblings and coverage of "
                          "every non-blank line (line arithmetic over runtime tables); for the line count of a reference definition only its "
